@@ -15,6 +15,10 @@
 //!     script on the smallest context satisfying the checks (same language, same cost
 //!     model) - computed by the harness;
 //!   - with every purpose carrying another purpose's redeemer value the simulation fails;
+//!   - spending outputs carry no datum, an inline datum or a datum hash (datum in the witness
+//!     set): the spending script then also demands its own datum; a script supplied by a
+//!     reference input gives the same answer; a script, redeemer or hashed datum left out makes
+//!     the simulation fail (phase one is enabled, as in `aiken tx simulate`);
 //!   - the simulation fails iff some script fails (known by construction);
 //!   - with a budget B: success iff every prefix sum of those costs, in redeemer order,
 //!     fits B (the remaining budget is threaded from redeemer to redeemer);
@@ -120,7 +124,7 @@ fn info_tag(kind: &str) -> i64 {
 /// constructor of this script's purpose: the script only behaves as BODY when it is run for
 /// the purpose, and with the redeemer, the transaction pairs it with.  Every builtin involved
 /// has a constant cost, so the cost does not depend on the rest of the context.
-fn script_term(b: Behaviour, salt: u8, kind: &str) -> RTerm {
+fn script_term(b: Behaviour, salt: u8, kind: &str, datum: bool) -> RTerm {
     use uplc::builtins::DefaultFunction as F;
     let app = |f: RTerm, a: RTerm| RTerm::App(Rc::new(f), Rc::new(a));
     let force = |t: RTerm| RTerm::Force(Rc::new(t));
@@ -135,32 +139,95 @@ fn script_term(b: Behaviour, salt: u8, kind: &str) -> RTerm {
     let c1 = app(app(bi(F::EqualsData), redeemer), RTerm::Con(Rc::new(RConst::Data(vcore::rterm::RData::I((salt as i64).into())))));
     let c2 = app(app(bi(F::EqualsInteger), app(force(force(bi(F::FstPair))), app(bi(F::UnConstrData), info))), RTerm::Con(Rc::new(RConst::int(info_tag(kind)))));
     let ite = |c: RTerm, t: RTerm| force(app(app(app(force(bi(F::IfThenElse)), c), delay(t)), delay(RTerm::Error)));
-    RTerm::Lam(Rc::new(ite(c1, ite(c2, body_term(b)))))
+    let body = if datum {
+        // C3: a spending script also demands its datum, `Some(I (salt + 100))`, second field of
+        // `SpendingScript out_ref (Maybe Datum)`
+        let info2 = head(tail(tail(fields())));
+        let maybe_datum = head(tail(app(force(force(bi(F::SndPair))), app(bi(F::UnConstrData), info2))));
+        let c3 = app(app(bi(F::EqualsData), maybe_datum), RTerm::Con(Rc::new(RConst::Data(expected_datum_option(salt)))));
+        ite(c3, body_term(b))
+    } else {
+        body_term(b)
+    };
+    RTerm::Lam(Rc::new(ite(c1, ite(c2, body))))
+}
+
+/// The Plutus V2 shape of the same script: `(lam datum? (lam redeemer (lam ctx CHECKS)))` with the
+/// redeemer and the datum as arguments and the purpose as second field of the context,
+/// `Constr 0 [tx_info, purpose]` (Minting 0, Spending 1, Rewarding 2).
+fn script_term_v2(b: Behaviour, salt: u8, kind: &str) -> RTerm {
+    use uplc::builtins::DefaultFunction as F;
+    let app = |f: RTerm, a: RTerm| RTerm::App(Rc::new(f), Rc::new(a));
+    let force = |t: RTerm| RTerm::Force(Rc::new(t));
+    let delay = |t: RTerm| RTerm::Delay(Rc::new(t));
+    let bi = |f: F| RTerm::Builtin(f);
+    // innermost binder: ctx = 1, redeemer = 2, datum = 3
+    let fields = app(force(force(bi(F::SndPair))), app(bi(F::UnConstrData), RTerm::Var(1)));
+    let purpose = app(force(bi(F::HeadList)), app(force(bi(F::TailList)), fields));
+    let c1 = app(app(bi(F::EqualsData), RTerm::Var(2)), RTerm::Con(Rc::new(RConst::Data(vcore::rterm::RData::I((salt as i64).into())))));
+    let c2 = app(app(bi(F::EqualsInteger), app(force(force(bi(F::FstPair))), app(bi(F::UnConstrData), purpose))), RTerm::Con(Rc::new(RConst::int(info_tag(kind)))));
+    let ite = |c: RTerm, t: RTerm| force(app(app(app(force(bi(F::IfThenElse)), c), delay(t)), delay(RTerm::Error)));
+    let body = if kind == "spend" {
+        let c3 = app(app(bi(F::EqualsData), RTerm::Var(3)), RTerm::Con(Rc::new(RConst::Data(datum_of(salt)))));
+        ite(c3, body_term(b))
+    } else {
+        body_term(b)
+    };
+    let inner = RTerm::Lam(Rc::new(RTerm::Lam(Rc::new(ite(c1, ite(c2, body))))));
+    if kind == "spend" {
+        RTerm::Lam(Rc::new(inner))
+    } else {
+        inner
+    }
+}
+
+fn datum_of(salt: u8) -> vcore::rterm::RData {
+    vcore::rterm::RData::I((salt as i64 + 100).into())
+}
+
+fn expected_datum_option(salt: u8) -> vcore::rterm::RData {
+    vcore::rterm::RData::Constr(0, vec![datum_of(salt)])
 }
 
 /// the bytes stored in the witness set: CBOR byte string of the flat program (the salt makes
 /// scripts of equal behaviour distinct)
-fn script_bytes(b: Behaviour, salt: u8, kind: &str) -> Vec<u8> {
-    vcore::flat_ref::cbor_bytes_wrap(&vcore::flat_ref::program_flat((1, 1, 0), &script_term(b, salt, kind)))
+fn script_bytes(b: Behaviour, salt: u8, kind: &str, datum: bool, lang: u8) -> Vec<u8> {
+    if lang == 2 {
+        vcore::flat_ref::cbor_bytes_wrap(&vcore::flat_ref::program_flat((1, 0, 0), &script_term_v2(b, salt, kind)))
+    } else {
+        vcore::flat_ref::cbor_bytes_wrap(&vcore::flat_ref::program_flat((1, 1, 0), &script_term(b, salt, kind, datum)))
+    }
 }
 
-fn script_hash(witness_bytes: &[u8]) -> [u8; 28] {
-    let mut pre = vec![3u8];
+fn script_hash(witness_bytes: &[u8], lang: u8) -> [u8; 28] {
+    let mut pre = vec![lang];
     pre.extend(witness_bytes);
     blake2b_224(&pre).try_into().unwrap()
 }
 
 /// independent cost of a script: evaluated on the smallest context that satisfies its two
 /// checks, `Constr 0 [I 0, I salt, Constr tag []]`
-fn standalone_cost(witness_bytes: &[u8], salt: u8, kind: &str) -> Result<Option<(u64, u64)>, String> {
+fn standalone_cost(witness_bytes: &[u8], salt: u8, kind: &str, datum: bool, lang: u8) -> Result<Option<(u64, u64)>, String> {
     let w = witness_bytes.to_vec();
-    let ctx = vcore::rterm::to_impl_data(&vcore::rterm::RData::Constr(0, vec![vcore::rterm::RData::I(0.into()), vcore::rterm::RData::I((salt as i64).into()), vcore::rterm::RData::Constr(info_tag(kind) as u64, vec![])]));
+    let kind_owned = kind.to_string();
+    let ctx = vcore::rterm::to_impl_data(&vcore::rterm::RData::Constr(0, vec![vcore::rterm::RData::I(0.into()), vcore::rterm::RData::I((salt as i64).into()), vcore::rterm::RData::Constr(info_tag(kind) as u64, if datum { vec![vcore::rterm::RData::I(0.into()), expected_datum_option(salt)] } else { vec![] })]));
     guarded(move || {
         let mut buf = vec![];
         let p = Program::<DeBruijn>::from_cbor(&w, &mut buf).expect("own script decodes");
         let p: Program<NamedDeBruijn> = p.into();
-        let p = p.apply_data(ctx);
-        let r = p.eval_version(ExBudget { cpu: 1_000_000_000_000, mem: 1_000_000_000_000 }, &uplc::Language::PlutusV3);
+        let big = ExBudget { cpu: 1_000_000_000_000, mem: 1_000_000_000_000 };
+        let r = if lang == 2 {
+            // arguments: datum (spend only), redeemer, context `Constr 0 [I 0, Constr tag []]`
+            let mut p = p;
+            if kind_owned == "spend" {
+                p = p.apply_data(vcore::rterm::to_impl_data(&datum_of(salt)));
+            }
+            let p = p.apply_data(vcore::rterm::to_impl_data(&vcore::rterm::RData::I((salt as i64).into())));
+            let p = p.apply_data(vcore::rterm::to_impl_data(&vcore::rterm::RData::Constr(0, vec![vcore::rterm::RData::I(0.into()), vcore::rterm::RData::Constr(info_tag(&kind_owned) as u64, vec![])])));
+            p.eval_version(big, &uplc::Language::PlutusV2)
+        } else {
+            p.apply_data(ctx).eval_version(big, &uplc::Language::PlutusV3)
+        };
         let c = r.cost();
         r.result.ok().map(|_| (c.cpu as u64, c.mem as u64))
     })
@@ -173,6 +240,8 @@ fn standalone_cost(witness_bytes: &[u8], salt: u8, kind: &str) -> Result<Option<
 pub struct Purpose {
     pub kind: &'static str, // mint | withdraw | spend
     pub behaviour: Behaviour,
+    /// Plutus language of the script: 2 or 3
+    pub lang: u8,
 }
 
 pub struct Built {
@@ -180,7 +249,8 @@ pub struct Built {
     pub utxos: Vec<(Vec<u8>, Vec<u8>)>,
     /// behaviours and standalone costs in the order the redeemers are listed
     /// (label, behaviour, script bytes, salt, purpose kind)
-    pub in_redeemer_order: Vec<(String, Behaviour, Vec<u8>, u8, &'static str)>,
+    pub in_redeemer_order: Vec<(String, Behaviour, Vec<u8>, u8, &'static str, u8)>,
+    pub with_datum: bool,
 }
 
 fn key_address() -> Vec<u8> {
@@ -193,22 +263,72 @@ pub fn build(purposes: &[Purpose], witness_order: &[usize], redeemer_order: &[us
     build_with(purposes, witness_order, redeemer_order, redeemers_as_map, 0)
 }
 
-/// `shift`: purpose i carries the redeemer purpose (i + shift) mod n expects (0 = its own)
+#[derive(Clone, Copy, Debug, PartialEq, Eq)]
+pub enum DatumMode {
+    /// spending scripts get no datum (allowed for Plutus V3) and do not look for one
+    None,
+    Inline,
+    /// datum hash in the output, datum in the witness set
+    Hashed,
+    /// datum hash in the output, datum *not* supplied
+    HashedMissing,
+}
+
+#[derive(Clone, Copy, Debug)]
+pub struct Opts {
+    /// purpose i carries the redeemer purpose (i + shift) mod n expects (0 = its own)
+    pub shift: usize,
+    /// this purpose's script is supplied by a reference input instead of the witness set
+    pub reference_script: Option<usize>,
+    pub datum: DatumMode,
+}
+
+impl Default for Opts {
+    fn default() -> Self {
+        Opts { shift: 0, reference_script: None, datum: DatumMode::None }
+    }
+}
+
+fn tag24(inner: &[u8]) -> Vec<u8> {
+    let mut o = vec![0xd8, 0x18];
+    o.extend(bytes(inner));
+    o
+}
+
 pub fn build_with(purposes: &[Purpose], witness_order: &[usize], redeemer_order: &[usize], redeemers_as_map: bool, shift: usize) -> Built {
+    build_opts(purposes, witness_order, redeemer_order, redeemers_as_map, Opts { shift, ..Default::default() })
+}
+
+pub fn build_opts(purposes: &[Purpose], witness_order: &[usize], redeemer_order: &[usize], redeemers_as_map: bool, opts: Opts) -> Built {
+    let shift = opts.shift;
+    let with_datum = opts.datum != DatumMode::None;
     // one script per purpose, all distinct
-    let scripts: Vec<Vec<u8>> = purposes.iter().enumerate().map(|(i, p)| script_bytes(p.behaviour, i as u8 + 1, p.kind)).collect();
-    let hashes: Vec<[u8; 28]> = scripts.iter().map(|s| script_hash(s)).collect();
+    let scripts: Vec<Vec<u8>> = purposes.iter().enumerate().map(|(i, p)| script_bytes(p.behaviour, i as u8 + 1, p.kind, with_datum && p.kind == "spend", p.lang)).collect();
+    let hashes: Vec<[u8; 28]> = scripts.iter().zip(purposes).map(|(s, p)| script_hash(s, p.lang)).collect();
     // inputs: one key input that pays, plus one script input per spend purpose
     let mut inputs: Vec<(Vec<u8>, Vec<u8>)> = vec![]; // (input cbor, output cbor)
     let mk_input = |n: u8| array(&[bytes(&[n; 32]), uint(0)]);
     inputs.push((mk_input(0xaa), map(&[(uint(0), bytes(&key_address())), (uint(1), uint(10_000_000))])));
     let mut spend_inputs: Vec<(Vec<u8>, usize)> = vec![];
+    let mut witness_datums: Vec<Vec<u8>> = vec![];
     for (i, p) in purposes.iter().enumerate() {
         if p.kind == "spend" {
             let mut addr = vec![0x70];
             addr.extend(hashes[i]);
             let inp = mk_input(0x10 + i as u8);
-            inputs.push((inp.clone(), map(&[(uint(0), bytes(&addr)), (uint(1), uint(2_000_000))])));
+            let datum_cbor = vcore::flat_ref::data_cbor(&datum_of(i as u8 + 1));
+            let mut out = vec![(uint(0), bytes(&addr)), (uint(1), uint(2_000_000))];
+            match opts.datum {
+                DatumMode::None => {}
+                DatumMode::Inline => out.push((uint(2), array(&[uint(1), tag24(&datum_cbor)]))),
+                DatumMode::Hashed | DatumMode::HashedMissing => {
+                    out.push((uint(2), array(&[uint(0), bytes(&vcore::blake2b::blake2b(&datum_cbor, 32))])));
+                    if opts.datum == DatumMode::Hashed {
+                        witness_datums.push(datum_cbor.clone());
+                    }
+                }
+            }
+            inputs.push((inp.clone(), map(&out)));
             spend_inputs.push((inp, i));
         }
     }
@@ -233,6 +353,13 @@ pub fn build_with(purposes: &[Purpose], witness_order: &[usize], redeemer_order:
         (uint(1), array(&[map(&[(uint(0), bytes(&key_address())), (uint(1), uint(9_000_000))])])),
         (uint(2), uint(200_000)),
     ];
+    if let Some(r) = opts.reference_script.filter(|r| *r < purposes.len()) {
+        // a reference input whose output carries the script: #6.24(bytes .cbor [3, script])
+        let ref_in = mk_input(0xee);
+        let script_ref = tag24(&array(&[uint(purposes[r].lang as u64), bytes(&scripts[r])]));
+        inputs.push((ref_in.clone(), map(&[(uint(0), bytes(&key_address())), (uint(1), uint(1_500_000)), (uint(3), script_ref)])));
+        body.push((uint(18), array(&[ref_in])));
+    }
     if !rewards.is_empty() {
         body.push((uint(5), map(&rewards.iter().map(|(a, _)| (bytes(a), uint(0))).collect::<Vec<_>>())));
     }
@@ -259,14 +386,28 @@ pub fn build_with(purposes: &[Purpose], witness_order: &[usize], redeemer_order:
     } else {
         array(&ordered.iter().map(|(t, ix, i)| array(&[uint(*t), uint(*ix), red_data(*i), array(&[uint(0), uint(0)])])).collect::<Vec<_>>())
     };
-    let witness_scripts: Vec<Vec<u8>> = witness_order.iter().filter_map(|k| scripts.get(*k)).map(|s| bytes(s)).collect();
-    let witness = map(&[(uint(5), red_cbor), (uint(7), array(&witness_scripts))]);
+    let in_witness: Vec<usize> = witness_order.iter().copied().filter(|k| Some(*k) != opts.reference_script && *k < scripts.len()).collect();
+    let witness_scripts: Vec<Vec<u8>> = in_witness.iter().filter(|k| purposes[**k].lang == 3).map(|k| bytes(&scripts[*k])).collect();
+    let witness_scripts_v2: Vec<Vec<u8>> = in_witness.iter().filter(|k| purposes[**k].lang == 2).map(|k| bytes(&scripts[*k])).collect();
+    let mut wit = vec![];
+    if !witness_datums.is_empty() {
+        wit.push((uint(4), array(&witness_datums)));
+    }
+    wit.push((uint(5), red_cbor));
+    if !witness_scripts_v2.is_empty() {
+        wit.push((uint(6), array(&witness_scripts_v2)));
+    }
+    if !witness_scripts.is_empty() {
+        wit.push((uint(7), array(&witness_scripts)));
+    }
+    let witness = map(&wit);
     let tx = array(&[map(&body), witness, vec![0xf5], vec![0xf6]]);
     let names = ["spend", "mint", "cert", "withdraw"];
     Built {
         tx,
         utxos: inputs,
-        in_redeemer_order: ordered.iter().map(|(t, ix, i)| (format!("{}#{}", names[*t as usize], ix), purposes[*i].behaviour, scripts[*i].clone(), *i as u8 + 1, purposes[*i].kind)).collect(),
+        with_datum,
+        in_redeemer_order: ordered.iter().map(|(t, ix, i)| (format!("{}#{}", names[*t as usize], ix), purposes[*i].behaviour, scripts[*i].clone(), *i as u8 + 1, purposes[*i].kind, purposes[*i].lang)).collect(),
     }
 }
 
@@ -306,7 +447,7 @@ fn simulate(b: &Built, utxo_order: &[usize], budget: Option<(u64, u64)>) -> Resu
         let slot = SlotConfig { zero_time: 1660003200000, zero_slot: 0, slot_length: 1000 };
         let eb = budget.map(|(c, m)| ExBudget { cpu: c as i64, mem: m as i64 });
         let big = ExBudget { cpu: 1_000_000_000_000, mem: 1_000_000_000_000 };
-        match eval_phase_two(&tx, &resolved, None, Some(eb.as_ref().unwrap_or(&big)), &slot, false, |_| ()) {
+        match eval_phase_two(&tx, &resolved, None, Some(eb.as_ref().unwrap_or(&big)), &slot, true, |_| ()) {
             Ok(rs) => Ok(rs.iter().map(|(r, _)| (r.ex_units.steps, r.ex_units.mem)).collect()),
             Err(e) => Err(format!("{e}").chars().take(100).collect()),
         }
@@ -328,9 +469,11 @@ pub fn part(run: &mut Run, tier: Tier) -> (u64, u64) {
         }
         for k in start..kinds.len() {
             for b in behaviours {
-                cur.push(Purpose { kind: kinds[k], behaviour: *b });
-                rec(k + 1, kinds, behaviours, cur, max, out);
-                cur.pop();
+                for lang in [3u8, 2] {
+                    cur.push(Purpose { kind: kinds[k], behaviour: *b, lang });
+                    rec(k + 1, kinds, behaviours, cur, max, out);
+                    cur.pop();
+                }
             }
         }
     }
@@ -339,15 +482,21 @@ pub fn part(run: &mut Run, tier: Tier) -> (u64, u64) {
     let mut outcomes: HashSet<String> = HashSet::new();
     let mut threaded = 0u64;
     let mut wrong_redeemer_runs = 0u64;
+    let (mut reference_script_runs, mut missing_piece_runs) = (0u64, 0u64);
     for purposes in &configs {
         let n = purposes.len();
+        let has_spend = purposes.iter().any(|p| p.kind == "spend");
+        let v2_spend = purposes.iter().any(|p| p.kind == "spend" && p.lang == 2);
+        let datum_modes: Vec<DatumMode> = if v2_spend { vec![DatumMode::Inline, DatumMode::Hashed] } else if has_spend { vec![DatumMode::None, DatumMode::Inline, DatumMode::Hashed] } else { vec![DatumMode::None] };
+        for datum in datum_modes {
         for as_map in [false, true] {
             for red_order in perms(n) {
                 // (a redeemer *map* is canonically ordered by the decoder or kept as given:
                 //  either way the order the implementation iterates in is what it reports back)
-                let reference = build(purposes, &(0..n).collect::<Vec<_>>(), &red_order, as_map);
+                let opts = Opts { datum, ..Default::default() };
+                let reference = build_opts(purposes, &(0..n).collect::<Vec<_>>(), &red_order, as_map, opts);
                 txs += 1;
-                let case = json!({"engine":"c19b","purposes":purposes.iter().map(|p| format!("{}:{:?}", p.kind, p.behaviour)).collect::<Vec<_>>(),"redeemer_order":red_order,"redeemers_as_map":as_map});
+                let case = json!({"engine":"c19b","purposes":purposes.iter().map(|p| format!("{}:{:?}:v{}", p.kind, p.behaviour, p.lang)).collect::<Vec<_>>(),"redeemer_order":red_order,"redeemers_as_map":as_map,"datum":format!("{:?}", datum)});
                 let all_utxos: Vec<usize> = (0..reference.utxos.len()).collect();
                 sims += 1;
                 let base = match simulate(&reference, &all_utxos, None) {
@@ -367,8 +516,8 @@ pub fn part(run: &mut Run, tier: Tier) -> (u64, u64) {
                 outcomes.insert(format!("{:?}", base));
                 // expected per-redeemer costs, in the order the redeemers were listed
                 let mut expected: Units = vec![];
-                for (_, _, script, salt, kind) in &reference.in_redeemer_order {
-                    match standalone_cost(script, *salt, kind) {
+                for (_, _, script, salt, kind, lang) in &reference.in_redeemer_order {
+                    match standalone_cost(script, *salt, kind, reference.with_datum && *kind == "spend", *lang) {
                         Ok(Some(c)) => expected.push(c),
                         Ok(None) => expected.push((0, 0)),
                         Err(p) => run.machinery_error(format!("standalone evaluation panicked: {p}")),
@@ -437,16 +586,55 @@ pub fn part(run: &mut Run, tier: Tier) -> (u64, u64) {
                 // the scripts do look at what they are given: with the redeemers handed to the
                 // wrong purposes no script can succeed, so the simulation must fail
                 if n >= 2 && !any_fail {
-                    let wrong = build_with(purposes, &(0..n).collect::<Vec<_>>(), &red_order, as_map, 1);
+                    let wrong = build_opts(purposes, &(0..n).collect::<Vec<_>>(), &red_order, as_map, Opts { shift: 1, ..opts });
                     sims += 1;
                     if let Ok(Ok(u)) = simulate(&wrong, &all_utxos, None) {
                         run.violation(Violation { signature: "script-run-with-another-purposes-redeemer-succeeds".into(), what: format!("every script demands its own redeemer value, the transaction gives each purpose another purpose's value, yet the simulation succeeds with {:?}", u), case: case.clone() });
                     }
                     wrong_redeemer_runs += 1;
                 }
+                // a script supplied by a reference input instead of the witness set: same answer
+                for r in 0..n {
+                    let b2 = build_opts(purposes, &(0..n).collect::<Vec<_>>(), &red_order, as_map, Opts { reference_script: Some(r), ..opts });
+                    let all2: Vec<usize> = (0..b2.utxos.len()).collect();
+                    sims += 1;
+                    reference_script_runs += 1;
+                    let got = simulate(&b2, &all2, None);
+                    let same = match (&got, &base) {
+                        (Ok(Ok(a)), Ok(b)) => a == b,
+                        (Ok(Err(_)), Err(_)) => true,
+                        _ => false,
+                    };
+                    if !same {
+                        run.violation(Violation { signature: "result-depends-on-where-the-script-is-supplied".into(), what: format!("with the script of purpose {r} supplied by a reference input instead of the witness set: {:?} instead of {:?}", got, base), case: case.clone() });
+                    }
+                }
+                // something the transaction needs is missing: a script, a redeemer, a datum
+                if !any_fail {
+                    for k in 0..n {
+                        let fewer: Vec<usize> = (0..n).filter(|x| *x != k).collect();
+                        let no_script = build_opts(purposes, &fewer, &red_order, as_map, opts);
+                        let no_redeemer = build_opts(purposes, &(0..n).collect::<Vec<_>>(), &red_order.iter().copied().filter(|x| *x != k).collect::<Vec<_>>(), as_map, opts);
+                        for (what, b) in [("script", no_script), ("redeemer", no_redeemer)] {
+                            sims += 1;
+                            missing_piece_runs += 1;
+                            if let Ok(Ok(u)) = simulate(&b, &all_utxos, None) {
+                                run.violation(Violation { signature: format!("succeeds-although-a-{what}-is-missing"), what: format!("the {what} of purpose/redeemer {k} is left out of the transaction, yet the simulation succeeds with {:?}", u), case: case.clone() });
+                            }
+                        }
+                    }
+                    if datum == DatumMode::Hashed {
+                        let b = build_opts(purposes, &(0..n).collect::<Vec<_>>(), &red_order, as_map, Opts { datum: DatumMode::HashedMissing, ..opts });
+                        sims += 1;
+                        missing_piece_runs += 1;
+                        if let Ok(Ok(u)) = simulate(&b, &all_utxos, None) {
+                            run.violation(Violation { signature: "succeeds-although-a-datum-is-missing".into(), what: format!("the output carries a datum hash and the witness set does not carry the datum, yet the simulation succeeds with {:?}", u), case: case.clone() });
+                        }
+                    }
+                }
                 // invariance under the order of witness scripts and of resolved inputs
                 for wo in perms(n) {
-                    let b2 = build(purposes, &wo, &red_order, as_map);
+                    let b2 = build_opts(purposes, &wo, &red_order, as_map, opts);
                     for uo in perms(b2.utxos.len().min(3)).into_iter().map(|mut p| {
                         p.extend(3..b2.utxos.len());
                         p
@@ -469,7 +657,10 @@ pub fn part(run: &mut Run, tier: Tier) -> (u64, u64) {
                 }
             }
         }
+        }
     }
+    run.set("hand_built_reference_script_runs", reference_script_runs);
+    run.set("hand_built_missing_piece_runs", missing_piece_runs);
     run.set("hand_built_transactions", txs);
     run.set("hand_built_simulations", sims);
     run.set("hand_built_multi_redeemer_budget_configurations", threaded);
